@@ -1300,5 +1300,5 @@ P_C16_Drain == (returned /\ graceful /\ started) => (found \ dropped) \subseteq 
 \* hand over) or has left (as found - KF_S17, KF_S27 - it could hold only incomplete files for ever, or
 \* block with nothing held).
 P_C16_TrackerLive ==
-  (pc["tracker"] \in {"t3", "t4"} /\ ~tin) => (progress \ dropped) # {}
+  (pc["tracker"] = "t3" /\ ~tin) => (progress \ dropped) # {}
 =============================================================================
